@@ -11,6 +11,7 @@ import (
 
 	sdk "github.com/cosmos/cosmos-sdk/types"
 
+	lendmod "github.com/comdex-official/comdex/x/lend"
 	lendtypes "github.com/comdex-official/comdex/x/lend/types"
 )
 
@@ -18,8 +19,12 @@ import (
 //   L  CalculateLendReward        B  CalculateBorrowInterest      S  CalculateStableInterest
 //   C  Rewardskeeper.CalculationOfRewards (float path; x, y, f = math.Pow(x, y) recomputed from the
 //      same operands by the same expression and printed as IEEE bit patterns)
-//   R  GetUtilisationRatioByPoolIDAndAssetID / GetBorrowAPRByAssetID (both kinds) /
-//      GetLendAPRByAssetIDAndPoolID on a lend-pool fixture
+//   R  rate parameters through every validation path (AssetRatesParams.Validate,
+//      AssetRatesPoolPairs.Validate, both proposals' ValidateBasic, GenesisState.Validate, the
+//      governance handler -> keeper.AddAssetRatesParams, keeper.AddAssetRatesPoolPairs), then
+//      GetUtilisationRatioByPoolIDAndAssetID / GetBorrowAPRByAssetID (both kinds) /
+//      GetLendAPRByAssetIDAndPoolID on a lend-pool fixture holding those parameters (stored by
+//      the handler when it accepts them, forced with SetAssetRatesParams otherwise)
 // A case is a small group of observations of one kind on neighbouring inputs (monotonicity) or on
 // consecutive intervals (sub-additivity).
 
@@ -64,6 +69,13 @@ func (g c18Gen) index() uint64 {
 		return lat[g.r.intn(len(lat))]
 	}
 	return 1 + g.r.next()%3000000000000000000
+}
+
+func c18b2i(b bool) int {
+	if b {
+		return 1
+	}
+	return 0
 }
 
 func c18Bump(r *rng, v int64, hi int64) int64 {
@@ -116,7 +128,9 @@ func TestC18(t *testing.T) {
 	a, base := newApp(t)
 	tr := newTracer(t, "c18.trace")
 	defer tr.close()
-	r := newRng(seed())
+	// consecutive seeds of the splitmix generator are the same stream shifted by one draw (they re-synchronise
+	// after a few cases): derive the stream from a hashed seed so that different VERIF_SEEDs are unrelated
+	r := newRng(newRng(seed()).next() ^ 0xC18)
 	g := c18Gen{r}
 	ncases := envInt("VERIF_CASES", 600)
 	only := envInt("VERIF_CASE", -1)
@@ -197,7 +211,7 @@ func TestC18(t *testing.T) {
 
 	// ---- lend-pool fixture for the rate functions ----
 	const poolID, assetID = uint64(1), uint64(1)
-	rates := func(ctx sdk.Context, u uint64, p [8]uint64) {
+	rates := func(ctx sdk.Context, u uint64) {
 		// utilisation u = B / (M + B) with M + B = 10^18, B = u (scaled)
 		cctx, _ := ctx.CacheContext()
 		B := u
@@ -238,16 +252,39 @@ func TestC18(t *testing.T) {
 		negOff := int64(r.intn(1000))
 		zeroLast := r.chance(5)
 		huge := r.chance(3)
-		var rp [8]uint64
-		uopts := []uint64{800000000000000000, 500000000000000000, 900000000000000000, 1, 2, 999999999999999999, 1000000000000000000, 650000000000000000}
-		rp[0] = uopts[r.intn(len(uopts))]
+		// rate parameters: 0 asset, 1 uopt, 2 base, 3 slope1, 4 slope2, 5 stable base, 6 stable slope1, 7 stable slope2,
+		// 8 liquidation threshold, 9 bonus, 10 penalty, 11 ltv, 12 reserve factor, 13 cAsset
+		var rp [14]uint64
+		rp[0], rp[13] = assetID, 2
+		uopts := []uint64{800000000000000000, 500000000000000000, 900000000000000000, 1, 2, 999999999999999999, 1000000000000000000, 650000000000000000,
+			1000000000000000001, 2000000000000000000, 0}
+		rp[1] = uopts[r.intn(len(uopts))]
 		if r.chance(30) {
-			rp[0] = 1 + r.next()%999999999999999999
+			rp[1] = 1 + r.next()%999999999999999999
 		}
-		for i := 1; i < 7; i++ {
-			rp[i] = []uint64{0, 1, 20000000000000000, 70000000000000000, 1000000000000000000, 3000000000000000000, r.next() % 2000000000000000000}[r.intn(7)]
+		for i := 2; i < 8; i++ {
+			rp[i] = []uint64{0, 1, 20000000000000000, 70000000000000000, 1000000000000000000, 3000000000000000000, r.next() % 2000000000000000000,
+				2000000000000000, 80000000000000000}[r.intn(9)]
 		}
-		rp[7] = []uint64{1, 100000000000000000, 200000000000000000, 1000000000000000000, r.next() % 1000000000000000001}[r.intn(5)]
+		for i := 8; i < 12; i++ {
+			rp[i] = 1000000000000000000
+		}
+		rp[12] = []uint64{1, 100000000000000000, 200000000000000000, 1000000000000000000, r.next() % 1000000000000000001, 0, 1000000000000000001, 2500000000000000000}[r.intn(8)]
+		if r.chance(6) {
+			rp[8+r.intn(4)] = 0
+		}
+		if r.chance(3) {
+			rp[[]int{0, 13}[r.intn(2)]] = 0
+		}
+		nameLen := []int{14, 19, 20, 25}[r.intn(4)]
+		if r.chance(70) {
+			nameLen = 14
+		}
+		hasData := !r.chance(8)
+		c18f1 := r.chance(4) // the regression case of C18-F1: mainnet-like parameters with UOptimal = 1
+		if ci == 0 { // every run replays the regression case first
+			kind, c18f1 = "R", true
+		}
 		var us []uint64
 		for i := 0; i < 4; i++ {
 			us = append(us, r.next()%1000000000000000001)
@@ -322,18 +359,67 @@ func TestC18(t *testing.T) {
 			}
 			a.LendKeeper.SetPool(ctx, lendtypes.Pool{PoolID: poolID, ModuleName: "c18pool", CPoolName: "C18"})
 			d := func(v uint64) sdk.Dec { return c18DecU(v) }
-			a.LendKeeper.SetAssetRatesParams(ctx, lendtypes.AssetRatesParams{AssetID: assetID, UOptimal: d(rp[0]), Base: d(rp[1]), Slope1: d(rp[2]),
-				Slope2: d(rp[3]), EnableStableBorrow: true, StableBase: d(rp[4]), StableSlope1: d(rp[5]), StableSlope2: d(rp[6]), Ltv: c18One,
-				LiquidationThreshold: c18One, LiquidationPenalty: c18One, LiquidationBonus: c18One, ReserveFactor: d(rp[7]), CAssetID: 2})
+			if c18f1 {
+				rp = [14]uint64{assetID, 1000000000000000000, 2000000000000000, 80000000000000000, 1500000000000000000, 0, 0, 0,
+					700000000000000000, 75000000000000000, 75000000000000000, 650000000000000000, 200000000000000000, 8}
+				nameLen, hasData = 14, true
+			}
+			params := lendtypes.AssetRatesParams{AssetID: rp[0], UOptimal: d(rp[1]), Base: d(rp[2]), Slope1: d(rp[3]),
+				Slope2: d(rp[4]), EnableStableBorrow: true, StableBase: d(rp[5]), StableSlope1: d(rp[6]), StableSlope2: d(rp[7]), Ltv: d(rp[11]),
+				LiquidationThreshold: d(rp[8]), LiquidationPenalty: d(rp[10]), LiquidationBonus: d(rp[9]), ReserveFactor: d(rp[12]), CAssetID: rp[13]}
+			var data []*lendtypes.AssetDataPoolMapping
+			if hasData {
+				data = []*lendtypes.AssetDataPoolMapping{{AssetID: assetID, AssetTransitType: 1, SupplyCap: sdk.NewDec(1000000000000)}}
+			}
+			pp := lendtypes.AssetRatesPoolPairs{AssetID: rp[0], UOptimal: d(rp[1]), Base: d(rp[2]), Slope1: d(rp[3]),
+				Slope2: d(rp[4]), EnableStableBorrow: true, StableBase: d(rp[5]), StableSlope1: d(rp[6]), StableSlope2: d(rp[7]), Ltv: d(rp[11]),
+				LiquidationThreshold: d(rp[8]), LiquidationPenalty: d(rp[10]), LiquidationBonus: d(rp[9]), ReserveFactor: d(rp[12]), CAssetID: rp[13],
+				ModuleName: "c18pp", CPoolName: strings.Repeat("P", nameLen), AssetData: data, MinUsdValueLeft: 1000000}
 			var sb strings.Builder
 			for _, v := range rp {
 				fmt.Fprintf(&sb, " %d", v)
 			}
 			tr.p("params%s", sb.String())
+			// every path by which rate parameters are validated / reach the store
+			try := func(f func() error) string {
+				var err error
+				p, _ := safely(func() { err = f() })
+				return cls(p, err)
+			}
+			v1 := try(func() error { return params.Validate() })
+			v2 := try(func() error { return pp.Validate() })
+			v3 := try(func() error {
+				return (&lendtypes.AddAssetRatesParams{Title: "t", Description: "d", AssetRatesParams: params}).ValidateBasic()
+			})
+			v4 := try(func() error {
+				return (&lendtypes.AddAssetRatesPoolPairsProposal{Title: "t", Description: "d", AssetRatesPoolPairs: pp}).ValidateBasic()
+			})
+			v5 := try(func() error {
+				gs := lendtypes.DefaultGenesisState()
+				gs.AssetRatesParams = []lendtypes.AssetRatesParams{params}
+				return gs.Validate()
+			})
+			// keeper.AddAssetRatesPoolPairs on a throw-away branch (no parameters stored yet for the asset)
+			v7 := try(func() error {
+				pctx, _ := ctx.CacheContext()
+				return a.LendKeeper.AddAssetRatesPoolPairs(pctx, pp)
+			})
+			// the governance handler (what gov v1 MsgExecLegacyContent and the legacy route both execute)
+			v6 := try(func() error {
+				return lendmod.NewLendHandler(a.LendKeeper)(ctx, &lendtypes.AddAssetRatesParams{Title: "t", Description: "d", AssetRatesParams: params})
+			})
+			_, stored := a.LendKeeper.GetAssetRatesParams(ctx, rp[0])
+			tr.p("v %s %s %s %s %s %s %d %s %d %d", v1, v2, v3, v4, v5, v6, c18b2i(stored), v7, nameLen, c18b2i(hasData))
+			if rp[0] != assetID {
+				continue // asset id 0: validation only
+			}
+			if !stored {
+				a.LendKeeper.SetAssetRatesParams(ctx, params) // outside the validated domain: the rate functions are still compared
+			}
 			// ascending utilisations incl. 0, the kink and its lower neighbour, 1
 			pts := []uint64{0, 1}
-			if rp[0] >= 2 && rp[0] <= 1000000000000000000 {
-				pts = append(pts, rp[0]-1, rp[0])
+			if rp[1] >= 2 && rp[1] <= 1000000000000000000 {
+				pts = append(pts, rp[1]-1, rp[1])
 			}
 			pts = append(pts, us...)
 			pts = append(pts, 1000000000000000000)
@@ -345,7 +431,7 @@ func TestC18(t *testing.T) {
 				}
 			}
 			for _, u := range pts {
-				rates(ctx, u, rp)
+				rates(ctx, u)
 			}
 		}
 	}
